@@ -40,7 +40,7 @@ namespace C04
 /-- dispatch order. For programs tagged "ordered" (paused worker, one producer, every submission
     accepted before Resume): the m-th job to start sits at position < m + (limit − 1) of the
     predicted order; with limit 1 the execution order is exactly the predicted order. -/
-def check (p : Params) (tr : List Obs) (_ : EndInfo) : List Viol :=
+def checkOrdered (p : Params) (tr : List Obs) (_ : EndInfo) : List Viol :=
   if p.tag != "ordered" then [] else
   let nq := max p.queues.length 1
   -- accepted submissions in acceptance order
@@ -63,6 +63,39 @@ def check (p : Params) (tr : List Obs) (_ : EndInfo) : List Viol :=
     | some pos => (m + 1, if pos > m + slack then acc.2 ++ [s!"job {k} started as number {m + 1} but is number {pos + 1} in the dispatch order {pred} (limit {p.conc})"] else acc.2)
     | none => (m + 1, acc.2 ++ [s!"job {k} started but is not in the predicted order {pred}"])) (0, [])
   vs
+
+/-- submissions of one thread to the only queue of a worker with limit 1 start in submission order when
+    their priorities are equal (any interleaving with the dispatcher, no "ordered" program needed):
+    X is accepted before Y is even submitted, so X sits in front of Y for as long as both are pending -/
+def sameThreadOrder (p : Params) (tr : List Obs) : List Viol :=
+  if p.conc != 1 || p.queues.length > 1 || p.tag == "ordered" then [] else
+  if tr.any (fun o => match o with | .call _ _ (.tune _) => true | .call _ _ (.addAll ..) => true | _ => false) then [] else
+  -- the harness binds the program's queues itself (one bind call each); a further bind adds a queue
+  if (tr.filter (fun o => match o with | .call _ _ .bind => true | _ => false)).length > max p.queues.length 1 then [] else
+  let isPrio := p.queues.head? == some "prio"
+  -- (job, thread, call position, return position, priority), accepted submissions only
+  let (subs, _) := tr.foldl (fun (acc : List (Nat × Nat × Nat × Nat × Int) × Nat) o =>
+    let i := acc.2
+    match o with
+    | .call g _ (.add _ k prio) => ((k, g, i, 0, if isPrio then prio else 0) :: acc.1, i + 1)
+    | .ret _ _ _ (.add k true) => (acc.1.map (fun e => if e.1 == k then (e.1, e.2.1, e.2.2.1, i, e.2.2.2.2) else e), i + 1)
+    | _ => (acc.1, i + 1)) ([], 0)
+  let subs := subs.filter (fun e => e.2.2.2.1 > 0)
+  let (starts, _) := tr.foldl (fun (acc : List (Nat × Nat) × Nat) o => match o with
+    | .enter _ k _ => ((k, acc.2) :: acc.1, acc.2 + 1)
+    | _ => (acc.1, acc.2 + 1)) ([], 0)
+  let startOf := fun (k : Nat) => (starts.find? (·.1 == k)).map (·.2)
+  subs.foldl (fun vs x =>
+    subs.foldl (fun vs y =>
+      -- same thread, equal priority, x accepted before y was submitted, both started, y first
+      if x.2.1 == y.2.1 && x.2.2.2.2 == y.2.2.2.2 && x.2.2.2.1 < y.2.2.1 then
+        match startOf x.1, startOf y.1 with
+        | some sx, some sy => if sy < sx then vs ++ [s!"job {y.1} started before job {x.1} although {x.1} was accepted before {y.1} was submitted by the same thread with the same priority (limit 1, one queue)"] else vs
+        | _, _ => vs
+      else vs) vs) []
+
+def check (p : Params) (tr : List Obs) (e : EndInfo) : List Viol :=
+  checkOrdered p tr e ++ sameThreadOrder p tr
 
 /-- the jobs of the predicted order that never started -/
 def neverStarted (p : Params) (tr : List Obs) : List Nat × List Nat :=
